@@ -101,7 +101,8 @@ def mk_scope(tag, kind, symbols=None, **over):
     cls = {"function": ns.NamespaceFunction, "class": ns.NamespaceClass, "global": ns.NamespaceGlobal}[kind]
     f = dict(symt=mk_symt(tag, symbols=symbols, kind=kind), inner_nsp=[], inner_nonlocal_names=set(), nonlocal_parameters=set(),
              outer_nonlocal_map={}, nonlocal_dict_expr=ast.Name(id=Hole(("celldict", tag), "ident", fresh=True)),
-             class_member_dict_expr=ast.Name(id=Hole(("classdict", tag), "ident", fresh=True)), loop_stack=[], comp_stack=[])
+             class_member_dict_expr=ast.Name(id=Hole(("classdict", tag), "ident", fresh=True)), loop_stack=[], comp_stack=[],
+             shadowed_global_names=set())   # (the non-trivial case: g_declared_global_under_a_shadow, real constructors)
     f.update(over)
     return Opaque(tag, None, cands=frozenset([cls]), fields=f, setattr=CL._setattr_field)
 
@@ -274,6 +275,9 @@ def loc_of_store(e, c):
 def loc_of_load(e, c):
     if isinstance(e, ast.Name):
         return ("plain", TL.nk(e.id))
+    if isinstance(e, ast.Subscript) and isinstance(e.value, ast.Call) and isinstance(e.value.func, ast.Name) and e.value.func.id == "globals" \
+            and not e.value.args and isinstance(e.slice, ast.Constant):
+        return ("global", e.slice.value)
     if isinstance(e, ast.Subscript) and isinstance(e.value, ast.Name) and isinstance(e.slice, ast.Constant):
         return ("dict", TL.nk(e.value.id), e.slice.value)
     return ("unreadable", ast.dump(e) if isinstance(e, ast.AST) else repr(e))
@@ -1114,6 +1118,51 @@ def g_globals_from_nested_scopes(R, tier):
                 f"{len(paths)} flag valuations; first mismatch: {bad[:1]}", replay=dict(kind="scope"))
 
 
+def g_declared_global_under_a_shadow(R, tier):
+    """`global x` in a function or class nested in a function that has its OWN variable x
+    (Language Reference 7.12): reads and writes of x denote the module global.  In the lowered
+    form functions are nested lambdas, where a PLAIN name x would be captured from the
+    enclosing lambda: the access must name the global explicitly.  REAL constructors and
+    access functions, every flag valuation of the enclosing function's x."""
+    ns = NS()
+    for kind in ("function", "class"):
+        for depth in (1, 2):
+            def run(c):
+                m = Machine(stubs=stubs())
+                sT, fT = mk_symbol("T.x")
+                c.assume(fT["declared_global"])
+                sB, fB = mk_symbol("B.x")
+                B = mk_scope("B", "function", {"x": sB})
+                stack = [mk_scope("G", "global"), B]
+                if depth == 2:
+                    stack.append(mk_scope("M", "function", {}))   # a function in between that does not mention x
+                symt = mk_symt("T", symbols={"x": sT}, frees=[], nonlocals=[], kind=kind)
+                cls = ns.NamespaceFunction if kind == "function" else ns.NamespaceClass
+                T = m.call_value(cls, symt, stack)
+                V = Opaque("V", ast.expr)
+                st = m.call_value(cls.get_assign, T, "x", V)
+                ld = m.call_value(cls.get_load_name, T, "x")
+                return dict(st=st, ld=ld, fB=fB)
+            paths = explore(run)
+            nm = f"namespaces.Namespace{kind.capitalize()}[declared-global,enclosing-function-{'directly-around' if depth == 1 else 'two-levels-up'}]"
+            if not paths_or_undecided(R, nm + "/paths", paths):
+                continue
+            for p in paths:
+                sig = p.ctx.signature()
+                if p.kind != "ok":
+                    R.fail(f"{nm}/no-unexpected-raise/{sig}", repr(p.value))
+                    continue
+                v = p.value
+                # a plain name is right only on paths where the enclosing function provably has NO variable x
+                unshadowed, _ = p.ctx.valid(z3.Not(v["fB"]["local"]))
+                shadowed = not unshadowed
+                got_s, got_l = loc_of_store(v["st"], p.ctx), loc_of_load(v["ld"], p.ctx)
+                R.check(f"{nm}/writes-the-module-global/{sig}", got_s == ("global", "x"), repr(got_s), replay=dict(kind="scope"))
+                ok_l = got_l == ("global", "x") or (got_l == ("plain", "x") and unshadowed)
+                R.check(f"{nm}/reads-the-module-global-not-the-enclosing-function-s-variable/{sig}", ok_l,
+                        f"{got_l}; the enclosing function may have its own x: {shadowed}", replay=dict(kind="scope"))
+
+
 def g_own_namespace_selection(R, tier):
     """a def / class statement picks, among the namespaces nested in the current one, the one
     created for ITS symbol table: same first line AND same name (siblings may share either);
@@ -1210,13 +1259,14 @@ def g_for_target(R, tier):
                    "def f():\n    for i in range(3):\n        pass\n    def g():\n        return i\n    return i, g()\nr = f()\nfor k in range(2):\n    pass\nlast = k\n")
 
 
-GROUPS = {"own_namespace_selection": g_own_namespace_selection, "globals_from_nested_scopes": g_globals_from_nested_scopes, "small_contracts": g_small_contracts, "nested_binders": g_nested_binders, "for_target": g_for_target, "namespace_isolation": g_namespace_isolation, "birthplace": g_birthplace, "method_super": g_method_super, "access_function": g_access_function, "access_class": g_access_class, "access_global": g_access_global,
+GROUPS = {"declared_global_under_a_shadow": g_declared_global_under_a_shadow, "own_namespace_selection": g_own_namespace_selection, "globals_from_nested_scopes": g_globals_from_nested_scopes, "small_contracts": g_small_contracts, "nested_binders": g_nested_binders, "for_target": g_for_target, "namespace_isolation": g_namespace_isolation, "birthplace": g_birthplace, "method_super": g_method_super, "access_function": g_access_function, "access_class": g_access_class, "access_global": g_access_global,
           "transform_dispatch": g_transform_dispatch, "transform_generic": g_transform_generic, "transform_names": g_transform_names,
           "transform_comp": g_transform_comp, "walk": g_walk, "seeding": g_seeding, "canary": c13.g_canary}
 
 
 # ----------------------------------------------------------------------------------------
 SCOPE_PROGRAMS = [
+    "x = 'g'\ndef outer(x):\n    y = 'local'\n    def inner():\n        global x, y\n        x = x + '!'\n        f = lambda: (x, [x for q in (1,)])\n        y = 'set'\n        return x, f()\n    class K:\n        global x\n        z = x\n    return inner(), x, y, K.z\nr = (outer('p'), x, y)\n",
     "limit = 1\nclass A:\n    limit = 2\n    f = lambda self: limit\n    double = limit * 2\n    seq = (1, 2)\n    g = [q + limit for q in seq]\n    h = [[p + q for p in seq2] for q in seq for seq2 in [(q,)]]\n    k = (lambda a=limit: a + limit)()\nr = (A.double, A().f(), A.g, A.h, A.k)\n",
     "def f(limit):\n    class A:\n        own = 5\n        g = [limit + q for q in (own,)]\n        h = lambda self: limit\n    return A.g, A().h()\nr = f(3)\n",
     "def f(x):\n    def g():\n        return x\n    x = [5, 6]\n    return [x for x in x], {x: x for x in x}, list(x for x in x), [y for x in [x] for y in x], g()\nr = f(0)\n",
